@@ -161,4 +161,39 @@ fn main() {
     println!("{:?}", v);
 }
 """),
+    dict(name="context_sent_to_thread", expect="reject", own=None, codes="E0277",
+         what="the per-stream object table holds raw addresses of objects that may be confined to one thread (Rc, RefCell): "
+              "a deserialization context must not be Send, or safe code resolves a reference to such an object on another thread",
+         body="""
+fn main() {
+    let input = [1u8];
+    let shared = std::rc::Rc::new(std::cell::RefCell::new(String::from("owned by the main thread")));
+    let mut ctx = DeserializationContext::new(&input);
+    ctx.state_mut().store_ref(&shared);
+    std::thread::scope(|s| {
+        s.spawn(move || {
+            let r = ctx.try_read_ref().unwrap().unwrap();
+            if let Some(rc) = r.downcast_ref::<std::rc::Rc<std::cell::RefCell<String>>>() {
+                let other = rc.clone();
+                other.borrow_mut().push_str(" touched");
+            }
+        });
+    });
+    println!("{}", shared.borrow());
+}
+"""),
+    dict(name="serialization_context_sent_to_thread", expect="reject", own=None, codes="E0277",
+         what="the same for the writer's context and its identity table",
+         body="""
+fn main() {
+    let shared = std::rc::Rc::new(5u32);
+    let mut ctx = SerializationContext::new(Vec::<u8>::new());
+    let _ = ctx.store_ref_or_object(&shared);
+    std::thread::scope(|s| {
+        s.spawn(move || {
+            let _ = ctx.store_ref_or_object(&7u32);
+        });
+    });
+}
+"""),
 ]
